@@ -52,6 +52,9 @@ def setup(ctx):
     return ract.selftest()
 
 
+aux_seen = []
+
+
 def make_inner(rng, D, in_sig, out_sig, record):
     """Random nonlinear, channel-mixing, position-dependent map MultiImage -> MultiImage (not equivariant)."""
     import jax.numpy as jnp
@@ -65,6 +68,13 @@ def make_inner(rng, D, in_sig, out_sig, record):
     class Inner(models.MultiImageModule):
         def __call__(self, x, aux_data=None):
             record.append({t: np.asarray(v) for t, v in x.data.items()})
+            gain = 1.0
+            if aux_data is not None:
+                # a stateful inner model: reads its carried state and updates it from the input (invariantly, so that the
+                # state itself is a legitimate invariant quantity); every group pass must see the SAME incoming state
+                gain = aux_data["gain"]
+                aux_seen.append(float(gain))
+                aux_data = {"gain": gain * 0.5 + 0.25 * sum(jnp.mean(v**2) for v in x.data.values())}
             sp = x.get_spatial_dims()
             rows = []
             for t in sorted(x.keys()):
@@ -75,7 +85,7 @@ def make_inner(rng, D, in_sig, out_sig, record):
             pos = sum(float(c) * g for c, g in zip(coef, grids)) / 3.0
             out = {}
             for t, c in out_sig:
-                h = jnp.tanh(jnp.einsum("oc,c...->o...", Ws[t], flat) * 0.3 + pos) * (1.0 + pos**2)
+                h = gain * jnp.tanh(jnp.einsum("oc,c...->o...", Ws[t], flat) * 0.3 + pos) * (1.0 + pos**2)
                 h = jnp.moveaxis(h.reshape((c, D ** t[0]) + tuple(sp)), 1, -1).reshape((c,) + tuple(sp) + (D,) * t[0])
                 out[t] = h
             return geom.MultiImage(out, x.D, x.is_torus), aux_data
@@ -124,13 +134,19 @@ def run_ga(case, ctx):
         x = mlgen.random_multi(rng, in_sig, D, sp, torus)
         on = (always or inference) and not empty_ops  # an empty operator list means: the inner model
         record.clear()
-        y = ga(x)[0]
+        import jax.numpy as jnp
+
+        aux0 = {"gain": jnp.asarray(1.5)} if case["i"] % 4 == 3 else None
+        del aux_seen[:]
+        y = ga(x, aux0)[0]
         evals += 1
+        if aux0 is not None and on and len(set(aux_seen)) > 1:
+            viols.append(viol("group-average-state-leaks-between-passes", f"the group passes of one call saw different incoming states {aux_seen[:6]} (each term of the average must be computed by the same function); {key}"))
         seen_inputs = list(record)
         Y = probes.blocks(y)
         if not on:
             record.clear()
-            y0 = inner(x)[0]
+            y0 = inner(x, aux0)[0]
             if any(not np.array_equal(np.asarray(y0[t]), Y[t]) for t in Y) or len(seen_inputs) != 1:
                 viols.append(viol("group-average-off-differs", f"averaging off but GroupAverage(f)(x) != f(x) bit for bit ({len(seen_inputs)} inner calls); {key}"))
             control = 1.0
@@ -155,7 +171,7 @@ def run_ga(case, ctx):
             S = mlgen.trace_scale(x, y)
             # control: the inner model alone is not equivariant
             record.clear()
-            f = lambda z: inner(z)[0]
+            f = lambda z: inner(z, aux0)[0]
             Yi = probes.blocks(f(x))
             control = 0.0
             worst, wg = 0.0, None
@@ -165,7 +181,7 @@ def run_ga(case, ctx):
                 gx = mlgen.act_mi(x, g)
                 d, _ = mlgen.compare(f(gx), mlgen.act_blocks(Yi, D, g, 1), 1, S)
                 control = max(control, d if np.isfinite(d) else 1.0)
-                ygx = ga(gx)[0]
+                ygx = ga(gx, aux0)[0]
                 evals += 1
                 d, msg = mlgen.compare(ygx, mlgen.act_blocks(Y, D, g, 1), 1, S)
                 if d > worst:
